@@ -44,6 +44,8 @@ theorem final_eff_ge_one (s : St) (ops : List Op) (h : 1 ≤ s.eff) : 1 ≤ (fin
     cases op with
     | compute => simpa [step] using (compute_ge_one s h).2
     | completed b d => simpa [step, completed_eff] using h
+    | reset => simp [step, reset]
+    | newCall _ _ _ => simpa [step] using h
 
 theorem run_all_ge_one (s : St) (ops : List Op) (h : 1 ≤ s.eff) : ∀ b ∈ run s ops, 1 ≤ b := by
   induction ops generalizing s with
@@ -59,5 +61,22 @@ theorem run_all_ge_one (s : St) (ops : List Op) (h : 1 ≤ s.eff) : ∀ b ∈ ru
     | completed bb d =>
       simp only [run, step]
       exact ih _ (by simpa [completed_eff] using h)
+    | reset =>
+      simp only [run, step]
+      exact ih _ (by simp [reset])
+    | newCall _ _ _ =>
+      simp only [run, step]
+      exact ih _ h
+
+theorem run_append (s : St) (a b : List Op) : run s (a ++ b) = run s a ++ run (final s a) b := by
+  induction a generalizing s with
+  | nil => simp [run, final]
+  | cons op r ih =>
+    simp only [List.cons_append, run, final]
+    cases h : step s op with
+    | mk s' o =>
+      cases o with
+      | none => simpa using ih s'
+      | some v => simpa using ih s'
 
 end JoblibModel.AutoBatch
